@@ -2,7 +2,7 @@
 From Coq Require Import List ZArith QArith Bool.
 Import ListNotations.
 From Navis Require Import model.Forest model.Ops model.Dist model.Heal
-  proofs.ForestWF proofs.RerootProofs proofs.OpsWF proofs.HealProofs.
+  proofs.ForestWF proofs.RerootProofs proofs.OpsWF proofs.HealProofs proofs.KruskalMin.
 Open Scope Z_scope.
 
 (* healing = one fragment join per added edge: nodes and payload (coordinates) are never removed or moved ... *)
@@ -24,17 +24,27 @@ Theorem C11_heal_wf : forall t chosen, WF t -> WF (heal t chosen).
 Proof. exact heal_wf. Qed.
 Print Assumptions C11_heal_wf.
 
-(* Kruskal on the fragment graph: chooses candidate edges only, never closes a cycle (an edge is taken only when its
-   end fragments are still apart), and ends with every candidate edge's end fragments connected.
-   PARTIAL: that the chosen set has MINIMUM total length (the cut property / exchange argument) is not proved; it is
-   decided on every implementation output by comparing the added length with the model's Kruskal weight and, for
-   <= 6 fragments, with a brute-force enumeration of all spanning trees in the harness (a bounded check, not a proof). *)
-Theorem C11_kruskal_spanning_partial : forall es u chosen u',
+(* Kruskal on the fragment graph (candidate edges sorted by length): chooses candidate edges only, never closes a cycle (an edge is
+   taken only when its end fragments are still apart), ends with every candidate edge's end fragments connected ... *)
+Theorem C11_kruskal_spanning : forall es u chosen u',
   (forall e, In e es -> registered u (fa e) = true /\ registered u (fb e) = true) ->
   kruskal u es = (chosen, u') ->
   forall e, In e es -> find u' (fa e) = find u' (fb e).
 Proof. exact kruskal_spanning. Qed.
-Print Assumptions C11_kruskal_spanning_partial.
+Print Assumptions C11_kruskal_spanning.
+(* ... and its total length is MINIMAL among all sets of candidate edges that connect what the candidates can connect
+   (exchange argument, proofs/KruskalMin.v); the minimum is attained by the choice itself *)
+Theorem C11_kruskal_minimal : forall es u chosen u' T,
+  sorted_cd es -> regs u es -> nonneg es -> incl T es ->
+  (forall e, In e es -> connected u T (fa e) (fb e)) ->
+  kruskal u es = (chosen, u') ->
+  (total_len chosen <= total_len T)%Q.
+Proof. exact kruskal_minimal. Qed.
+Print Assumptions C11_kruskal_minimal.
+Theorem C11_kruskal_choice_spans : forall es u chosen u', regs u es -> kruskal u es = (chosen, u') ->
+  incl chosen es /\ forall e, In e es -> connected u chosen (fa e) (fb e).
+Proof. exact kruskal_choice_spans. Qed.
+Print Assumptions C11_kruskal_choice_spans.
 Theorem C11_kruskal_chooses_candidates : forall es u chosen u', kruskal u es = (chosen, u') -> incl chosen es.
 Proof. exact kruskal_chosen_subset. Qed.
 Print Assumptions C11_kruskal_chooses_candidates.
